@@ -9,4 +9,5 @@ var verifHarnesses = map[string]func(){
 	"VerifH_C03_events":        VerifH_C03_events,
 	"VerifH_C02_L1_naming":     VerifH_C02_L1_naming,
 	"VerifH_C02_L2_idempotent": VerifH_C02_L2_idempotent,
+	"VerifH_C04_L2_restart": VerifH_C04_L2_restart,
 }
